@@ -53,6 +53,11 @@ def run(chk, replay):
         chk.oblige("harness-build:sched", False, out[-3000:]); return
     chk.oblige("harness-build:sched", True)
     cases = []
+    import c14_yaml
+    if replay and "yaml_accept" in json.load(open(replay))["case"]:
+        # a definition written in YAML: loader + NewExecutionGraph (+ real agent) against the property read on the text
+        c14_yaml.run(chk, binp, json.load(open(replay))["case"]["yaml_accept"])
+        return
     if replay:
         cases = [json.load(open(replay))["case"]["deps"]]
     else:
@@ -109,4 +114,10 @@ def run(chk, replay):
         chk.oblige("correspondence:graph (impl = model on every case)", True)
     chk.exhaustive = True
     chk.stats = {"verdicts": dist, "cases": len(cases)}
+    if not replay:
+        # the same property for definitions WRITTEN IN YAML (the graph stream above never passes the loader)
+        ny = c14_yaml.run(chk, binp)
+        chk.rule += ("; plus %d generated YAML definitions (2-6 distinct step names incl. names with ',' / surrounding blanks; depends entries: "
+                     "existing, unknown, \"\", blank, \",\", \" a \", \"a, b\" as one entry, \"a,\", null, duplicates, self, cycles, scalar form) through "
+                     "dag.LoadYAML/dag.Load + NewExecutionGraph, %d of them run by the real agent; oracle = the property read on the text as written" % (ny, 2 * len(c14_yaml.KINDS) if chk.tier == "quick" else 8 * len(c14_yaml.KINDS)))
     chk.samples = [{"deps": cases[i], "impl": hl[i].split(" ")[1]} for i in (5, 300, 70000 if len(cases) > 70000 else len(cases) - 1) if i < len(cases)]
